@@ -205,6 +205,25 @@ def chunk_templates(job):
     return n, out
 
 
+# text that some formatting / templating layer could take for a directive if an error message or a report is built from it
+PLACEHOLDERS = ["{}", "{0}", "{name}", "{", "}", "{0!r:>{1}}", "%s", "%d", "%(x)s", "%", "$x", "${x}", "\\1", "\\g<0>", "\\", "[bold]", "[/]"]
+PH_CORE = ["rgb(", ")", ",", "1", " ", "#", "fff", "red", "color "]
+
+
+def chunk_placeholders(first):
+    out, n = [], 0
+    A = PLACEHOLDERS + PH_CORE
+    for k in (0, 1, 2):
+        for tail in itertools.product(A, repeat=k):
+            if first not in PLACEHOLDERS and not any(t in PLACEHOLDERS for t in tail):
+                continue
+            n += 1
+            vs = judge_value("".join((first,) + tail))
+            if vs and len(out) < 8:
+                out += vs
+    return n, out
+
+
 def chunk_seqs(job):
     prefix, depth = job
     out, n = [], 0
@@ -256,6 +275,13 @@ def run(ctx):
     ctx.sub("functional_templates_x_near_miss_components", states=tn, transitions=tn, evaluations=tn, traces=tn, distinct_nontrivial=tn, exhaustive=True,
             templates=TEMPLATES, components=len(COMPONENTS))
     ctx.sample({"subcheck": "template", "value": "hsl(120px, 50%, 1e)"})
+    pn = 0
+    for cnt, vs in ctx.pmap(chunk_placeholders, PLACEHOLDERS + PH_CORE):
+        pn += cnt
+        ctx.add_violations(vs)
+    ctx.sub("strings_with_formatting_placeholders", states=pn, transitions=pn, evaluations=pn, traces=pn, distinct_nontrivial=pn, exhaustive=True,
+            placeholders=PLACEHOLDERS, max_tokens=3)
+    ctx.sample({"subcheck": "placeholder", "value": "rgb({name},1"})
     hj = [(c, 6) for c in HEXCHARS]
     hn = 0
     for cnt, vs in ctx.pmap(chunk_hexlike, hj):
